@@ -55,12 +55,16 @@ func VerifC10Bearer(l int) {
 	cfg.AdminAPI.AuthToken = "tok"
 	h := NewMux(lb, cfg, lb.GetMetricsCollector())
 	path := verifPaths[verifrt.Choice("path", len(verifPaths))]
-	method := []string{"GET", "POST", "DELETE"}[verifrt.Choice("method", 3)]
+	method := []string{"GET", "POST", "DELETE", "OPTIONS", "HEAD"}[verifrt.Choice("method", 5)]
 	authz := verifrt.String("authorization", l)
 	r := &http.Request{Method: method, URL: &url.URL{Path: path}, Header: http.Header{}, RemoteAddr: "10.0.0.1:999"}
 	r.Body = http.NoBody
 	if b := verifBodies[verifrt.Choice("body", len(verifBodies))]; b != "" {
 		r.Body = &verifBody{Reader: strings.NewReader(b)}
+	}
+	if verifrt.Bool("looksLikeACORSPreflight") {
+		r.Header.Set("Origin", "http://dashboard.example")
+		r.Header.Set("Access-Control-Request-Method", "GET")
 	}
 	if verifrt.Bool("authorizationPresent") {
 		r.Header.Set("Authorization", authz)
